@@ -49,9 +49,37 @@ def _make(args):
     return None
 
 
+_code_hash = None
+
+
+def code_hash():
+    """Generated fonts are cached in work/; the cache key includes the generator sources so that an edited generator never
+    meets stale fonts."""
+    global _code_hash
+    if _code_hash is None:
+        import hashlib
+        h = hashlib.sha1()
+        d = os.path.dirname(os.path.abspath(__file__))
+        for fn in ('synthwork.py', 'lzwork.py', 'fontlib/gen.py', 'fontlib/gdl.py', 'fontlib/sfnt.py', 'fontlib/lz4.py'):
+            with open(os.path.join(d, fn), 'rb') as f:
+                h.update(f.read())
+        _code_hash = h.hexdigest()[:8]
+    return _code_hash
+
+
+def _prune(root):
+    # caches made by another version of the generator are useless: remove them (disk is limited)
+    if not os.path.isdir(root):
+        return
+    for d in os.listdir(root):
+        if not d.endswith('-' + code_hash()) and '.tmp' not in d:
+            shutil.rmtree(os.path.join(root, d), ignore_errors=True)
+
+
 def make_fonts(kind, seed, count):
-    outdir = os.path.join(build.WORK, 'synth', '%s-%d-%d' % (kind, seed, count))
+    outdir = os.path.join(build.WORK, 'synth', '%s-%d-%d-%s' % (kind, seed, count, code_hash()))
     lst = os.path.join(outdir, 'fontlist.txt')
+    _prune(os.path.join(build.WORK, 'synth'))
     if os.path.exists(lst):
         return lst, [l for l in open(lst).read().split('\n') if l]
     tmp = outdir + '.tmp%d' % os.getpid()
